@@ -14,7 +14,7 @@ if ! patch -s -p1 -d "$tmp" < "$patch"; then echo "STALE $patch (does not apply)
 if ! (cd "$tmp/v3" && GOFLAGS=-mod=readonly go build ./... 2>"$tmp/build.err"); then echo "NOBUILD $patch"; head -5 "$tmp/build.err"; exit 4; fi
 mkdir -p "$tmp/ev"
 for p in "$@"; do
-  ZLV_REPO="$tmp" ZLV_EVDIR="$tmp/ev" /verif/bin/zlv -prop "$p" > "$tmp/out.$p" 2>&1; rc=$?
+  ZLV_REPO="$tmp" ZLV_EVDIR="$tmp/ev" ZLV_BCECACHE="$tmp/bce" /verif/bin/zlv -prop "$p" > "$tmp/out.$p" 2>&1; rc=$?
   case $rc in
     0) echo "SILENT $p $(basename $patch)";;
     1) echo "KILLED $p $(basename $patch): $(grep -v '^VIOLATION\|^KNOWN-FINDING\|^note:' "$tmp/out.$p" | head -1 | cut -c1-260)";;
